@@ -36,7 +36,7 @@ func init() {
 		Check:           c08Check,
 		DistinctClasses: []string{"fault-code", "ref-code"},
 		MinEvaluations:  func(tier string) int64 { return 5000 },
-		RequiredCounts:  []string{"valid_accepted", "fault_rejected", "multi_fault_judged", "blind_judged"},
+		RequiredCounts:  []string{"valid_accepted", "fault_rejected", "multi_fault_judged", "blind_judged", "collision_valid", "collision_conflicting"},
 	})
 }
 
@@ -51,6 +51,33 @@ func c08MakeSchema(r *core.Rand, i int) *c08Schema {
 	return &c08Schema{src: (&model.Renderer{}).RenderSDoc(&model.SDoc{Items: items}), items: items, mg: tsys.Merge(items)}
 }
 
+// c08PetsSchema is a small fixed schema in which several types share field names and field types, so
+// that collision documents often compare the same fragments in exclusive and non-exclusive contexts.
+const c08PetsSchema = `interface Pet { name: String nick: String friend: Person mate: Pet }
+type Dog implements Pet { name: String nick: String friend: Person mate: Pet barks: Boolean }
+type Cat implements Pet { name: String nick: String! friend: Person mate: Pet lives: Int }
+type Person { name: String nick: String pet: Pet pets: [Pet] best: Person }
+union Any = Dog | Cat | Person
+type Query { pet: Pet owner: Person any: Any }`
+
+func c08PetsCases(x *core.Ctx, r *core.Rand, n int) {
+	sd, err := parser.ParseSchema(&ast.Source{Name: "pets.graphql", Input: c08PetsSchema})
+	if err != nil {
+		x.HarnessBug("pets schema: " + err.Error())
+		return
+	}
+	mg := tsys.Merge(model.FromSchemaAST(sd).Items)
+	rn := &model.Renderer{}
+	for j := 0; j < n; j++ {
+		d := dgen.CollisionDoc(r, mg)
+		if j%2 == 0 {
+			d = dgen.PetsScenarioDoc(r, mg)
+		}
+		cc := core.NewCase("pair", "schema", c08PetsSchema, "doc", rn.RenderDoc(d), "expect", "collide")
+		x.Do(cc, func() { c08Check(x, cc) })
+	}
+}
+
 func c08Run(x *core.Ctx) {
 	ns := 125
 	if !x.Quick() {
@@ -58,6 +85,7 @@ func c08Run(x *core.Ctx) {
 	}
 	r := x.Rand(uint64(x.Shard))
 	rn := &model.Renderer{}
+	c08PetsCases(x, r, ns*8)
 	for i := 0; i < ns; i++ {
 		sc := c08MakeSchema(r, i)
 		for j := 0; j < 8; j++ {
@@ -93,6 +121,15 @@ func c08Run(x *core.Ctx) {
 					x.Do(mc, func() { c08Check(x, mc) })
 				}
 			}
+		}
+		// collision documents (two aliases, fragments in exclusive and non-exclusive contexts): the reference decides
+		for j := 0; j < 6; j++ {
+			d := dgen.CollisionDoc(r, sc.mg)
+			if len(d.Defs) == 0 {
+				continue
+			}
+			cc := core.NewCase("pair", "schema", sc.src, "doc", rn.RenderDoc(d), "expect", "collide")
+			x.Do(cc, func() { c08Check(x, cc) })
 		}
 		// type-blind documents
 		for j := 0; j < 3; j++ {
@@ -207,6 +244,14 @@ func c08Check(x *core.Ctx, c *core.Case) {
 		key := "multi_fault_judged"
 		if expect == "blind" {
 			key = "blind_judged"
+		}
+		if expect == "collide" {
+			key = "collision_judged"
+			if len(codes) == 0 {
+				x.Count("collision_valid")
+			} else if ref.Has("OverlappingFieldsCanBeMerged") {
+				x.Count("collision_conflicting")
+			}
 		}
 		switch {
 		case len(codes) > 0 && len(errs) == 0:
